@@ -247,7 +247,8 @@ def denote_track(kind, payload, rep):
                 t += d
     instr = payload[1] if kind not in ("note", "nc", "bar") else None
     return dict(ons=sorted(ons), offs=sorted(offs), names=names, sigs=sigs,
-                program=None if instr is None or first_ch is None else (first_ch, instr), flat=flat, tempos=tempos)
+                program=None if instr is None or first_ch is None else (first_ch, instr), flat=flat, tempos=tempos,
+                passes=rep + 1)
 
 # ------------------------------------------------------------------ generators
 
